@@ -93,6 +93,15 @@ impl Z80 {
         }
     }
 
+    /// Clears CPU state which is not a part of register set: `HALT` state, interrupt check
+    /// skip after `EI` and pending opcode prefix. Should be used when CPU state is replaced
+    /// as a whole (e.g. snapshot loading), as these belong to the previously executed code
+    pub fn reset_control_state(&mut self) {
+        self.halted = false;
+        self.skip_interrupt = false;
+        self.active_prefix = Prefix::None;
+    }
+
     /// Pops program counter to the stack. Exposed as a public crate interface to support
     /// 48K SNA loading in `rustzx-core` and fast tape loaders (Perform RET)
     pub fn pop_pc_from_stack(&mut self, bus: &mut impl Z80Bus) {
